@@ -173,6 +173,7 @@ def run(ctx, config):
                "read and write decrement differ beyond the read<->write renaming at element %d" % diff)
     rules.append(r3)
     rules.append(rule_clip_eval(P))
+    rules.append(rule_share_eval(P))
     rules.append(rule_leave_group(P, ctx, config))
     return rules
 
@@ -193,6 +194,63 @@ def rule_leave_group(P, ctx, config):
             if (keep or not is_e(a, "int")) and not destroying:
                 r.bad("K2:%s:leaves-group-still-suspended" % f.name, el.where(), f.name,
                       "the bufferevent leaves its group with unsuspend=%s outside destruction: a suspension imposed by the old group stays on the bufferevent and no later refill lifts it (no progress although budget is available)" % show(a))
+    return r
+
+
+def rule_share_eval(P, rid="C22-share-eval"):
+    """what one read/write may move for a member of a group: typed evaluation of bufferevent_get_rlim_max_ on group level x members x share floor, with a configured floor that differs
+    from the clipped one"""
+    r = Rule(rid, "K6", "bufferevent_get_rlim_max_ for a group member: min(per-operation maximum, max(group level / members, the group's CLIPPED minimum share)), zero while the group is "
+             "suspended, never negative", floor=150)
+    f = P.fn("bufferevent_get_rlim_max_")
+    bev = ["var", f.params[0][0], "param"]
+    isw = f.params[1][0]
+    RL, G = PPtr("rl"), PPtr("grp")
+    nb = 0
+    for w in (0, 1):
+        ch, oth = ("write", "read") if w else ("read", "write")
+        for susp in (0, 1):
+            for lim in (-48, 0, 16, 160, 6400):
+                for n in (1, 4):
+                    for ms, cms in ((16, 64), (16, 200), (64, 64), (1, 64)):
+                        for single in (1000, 10):
+                            env = {"#typed": 1, bev[1]: PPtr("bev"), isw: w, ("@", "bev", "#zero"): 1, ("@", "rl", "#zero"): 1, ("@", "grp", "#zero"): 1,
+                                   ("@", "bev", "bufferevent_private.max_single_%s" % ch): single, ("@", "bev", "bufferevent_private.max_single_%s" % oth): 7,
+                                   ("@", "bev", "bufferevent_private.rate_limiting"): RL, ("@", "rl", "bufferevent_rate_limit.cfg"): 0, ("@", "rl", "bufferevent_rate_limit.group"): G,
+                                   ("@", "grp", "bufferevent_rate_limit_group.%s_suspended" % ch): susp, ("@", "grp", "bufferevent_rate_limit_group.%s_suspended" % oth): 1 - susp,
+                                   ("@", "grp", "bufferevent_rate_limit_group.rate_limit"): PPtr("gb"),        # the embedded bucket, addressed as an object of its own
+                                   ("@", "gb", "ev_token_bucket.%s_limit" % ch): lim, ("@", "gb", "ev_token_bucket.%s_limit" % oth): 3,
+                                   ("@", "grp", "bufferevent_rate_limit_group.n_members"): n, ("@", "grp", "bufferevent_rate_limit_group.min_share"): ms,
+                                   ("@", "grp", "bufferevent_rate_limit_group.configured_min_share"): cms, ("@", "grp", "bufferevent_rate_limit_group.lock"): 0, "#susp": ()}
+
+                            def hook(el, e_):
+                                nme = callee_name(el.e)
+                                if nme in ("bufferevent_suspend_read_", "bufferevent_suspend_write_"):
+                                    e_["#susp"] = e_["#susp"] + (nme,)
+                                    return 0
+                                if nme == "bufferevent_update_buckets":
+                                    return 0
+                                return None
+                            outs = [o for o in run_all(f, (f.entry, 0), env, lambda el: False, P, hook, max_steps=400) if not (o.kind == "exit" and o.why == "noreturn")]
+                            for o in outs:
+                                if o.kind != "ret":
+                                    r.brk("bufferevent_get_rlim_max_: %s %s" % (o.kind, o.why))
+                                    return r
+                                try:
+                                    val = tevalx(normx(o.at.e[1]), o.env, P, f)
+                                except Exception:
+                                    val = None
+                                if isinstance(val, int) and val >= 1 << 63:
+                                    val -= 1 << 64
+                                q = abs(lim) // n * (1 if lim >= 0 else -1)        # C division truncates toward zero
+                                want = 0 if susp else max(0, min(single, max(q, ms)))
+                                r.inst((w, susp, lim, n, ms, cms, single), {"direction": ch, "group_suspended": susp, "group_level": lim, "members": n, "min_share": ms, "configured_min_share": cms,
+                                                                          "per_operation_maximum": single, "granted": val})
+                                if val != want and nb < 4:
+                                    nb += 1
+                                    r.bad("K6:bufferevent_get_rlim_max_:group-share", "%s:%d" % (f.file, f.line), f.name,
+                                          "%s: group level %d, %d member(s), minimum share %d (configured %d, clipped to the rate), per-operation maximum %d, group %ssuspended: grants %r bytes, "
+                                          "expected %d (a share floor above the group's rate lets the members together move more than burst + k*rate)" % (ch, lim, n, ms, cms, single, "" if susp else "not ", val, want))
     return r
 
 
